@@ -270,7 +270,7 @@ func TestDeterminism(t *testing.T) {
 // with three or more nested runs are failed as a whole (every live run is exited in one go)
 var deepOpts = scen.GenOpts{
 	World: world.Opts{MaxFlows: 4, MaxNodes: 3, SubflowHeavy: true, Adversarial: true, BrokenFlow: true,
-		Actions: []string{"enter_flow", "send_msg", "set_run_result", "set_contact_name"}},
+		Actions: []string{"enter_flow", "enter_flow", "enter_flow", "send_msg", "set_run_result"}},
 	Restarts:     true,
 	ResumeLimits: true,
 	WrongResumes: true,
